@@ -161,6 +161,8 @@ def config_read_at_definition(ctx, repo, rule, only_mods=None, skip_mods=None):
     the member, is not seen by callers that rely on the default.  Every function parameter default of the package that
     reads a member of the runtime configuration object is reported (the body of the function is the place to read it)."""
     n = 0
+    from ..handlermodel import config_tables as _ct
+    tabs_ = _ct(repo)
     for fi in repo.all_functions():
         rel = fi.mod.rel
         if "/driver/packs/" in rel or (only_mods and not any(m in rel for m in only_mods)) or (skip_mods and any(m in rel for m in skip_mods)):
@@ -175,6 +177,13 @@ def config_read_at_definition(ctx, repo, rule, only_mods=None, skip_mods=None):
                 ctx.ob(rule, f"{fi.qual}::default::{p.arg}", False,
                        f"{fi.qual}: the default of parameter `{p.arg}` reads `{ast.unparse(reads[0])}` - evaluated once, when the module is imported: callers that rely on the default keep the value the "
                        f"configuration had at import, whatever it is set to afterwards (the configured limit is not the limit in force)", loc(fi, d))
+                # ... which the tables make observable as soon as they disagree on that member: then one of the two modes
+                # runs with the OTHER mode's value wherever the default is relied on
+                for r_ in reads:
+                    vals_ = {tn_: t_.get(r_.attr) for tn_, t_ in sorted(tabs_.items()) if r_.attr in t_}
+                    ctx.ob(rule, f"{fi.qual}::default::{p.arg}::tables-agree-on::{r_.attr}", len(set(vals_.values())) <= 1,
+                           f"{fi.qual}: the default of `{p.arg}` is `{ast.unparse(r_)}` as it was at import, and the configuration tables give {r_.attr} = {vals_}: after a switch of the mode every caller that relies on "
+                           f"the default runs with the other table's value (a request is transmitted more often, and holds the lock longer, than the configuration in force allows)", loc(fi, d))
     ctx.ob(rule, "parameter-defaults::examined", n > 0, "no parameter default found in the examined modules")
     ctx.count(f"{rule}:parameter defaults examined", n)
 
